@@ -11,7 +11,7 @@
     eadd <h|s|z> <member> <value|-|score>  -> ok
     edel <h|s|z> <member>                  -> 1 | 0
     escan <h|s|z> <cursor> <count> <pat|~> <novalues 0|1> -> <next> <items> <fast 0|1>
-    glob <pattern> <text>                  -> <code 0|1> <spec 0|1|x>
+    glob <pattern> <text>                  -> <code 0|1> <spec 0|1>
     cmd <name|arg|arg...>                  -> err | <next> <items> [<fast>]
     cfg <default> <cap> <factor> <lossy> <slot> -> ok          (Lean side only: the constants of `Gen.scanCfg`,
                                                           sent by the check so that the driver builds even
@@ -155,10 +155,7 @@ def step (st : St) (ws : List String) : St × String :=
   | ["glob", p, t] =>
     match ofHex p, ofHex t with
     | some pat, some txt =>
-      let spec := match Spec.matchBytes pat txt with
-        | none => "x"
-        | some b => flag b
-      (st, s!"{flag (Code.matchBytes st.g.lossy pat txt)} {spec}")
+      (st, s!"{flag (Code.matchBytes st.g.lossy pat txt)} {flag (Spec.matchBytes pat txt)}")
     | _, _ => (st, "bad-op")
   | ["cmd", a] =>
     match parseHexList a with
